@@ -374,6 +374,17 @@ class Builder:
             return var_counter[0]
 
         def new_gid():
+            # prefer an id whose decimal spelling contains (or is contained in) the id of an existing group:
+            # scopes are dotted strings of ids, and only such ids expose substring / prefix handling of scopes
+            existing = [x["id"] for x in s["groups"]]
+            if existing and rng.random() < 0.6:
+                base = str(rng.choice(existing))
+                cands = [int(base + d) for d in "0123456789"] + [int(d + base) for d in "123456789"]
+                if len(base) > 1:
+                    cands += [int(base[:-1]), int(base[1:])]
+                cands = [c for c in cands if c < 900 and c not in existing]
+                if cands:
+                    return rng.choice(cands)
             while gid_pool:
                 g = gid_pool.pop()
                 if all(x["id"] != g for x in s["groups"]):
@@ -810,10 +821,14 @@ def coq_cases_file(scenarios, impl_accepts):
     lines = [COQ_HEADER, "Definition cases : list (schema * bool) := ["]
     lines.append(";\n".join("  (%s, %s)" % (to_coq(s), "true" if acc else "false") for s, acc in zip(scenarios, impl_accepts)))
     lines.append("].")
+    # has_cycle is the last conjunct of conforms_with; deciding it first (the `if` is lazy under vm_compute, `&&` is
+    # not) avoids evaluating the fuel-bounded guaranteed-ancestry search on cyclic graphs, where it is exponential
+    lines.append("Definition verdict_kf (s : schema) : bool := if has_cycle s then false else conforms_kf default_value_table s.")
+    lines.append("Definition verdict (s : schema) : bool := if has_cycle s then false else conforms default_value_table s.")
     lines.append("Fixpoint failing (i : nat) (l : list (schema * bool)) : list nat :=")
-    lines.append("  match l with [] => [] | (s, b) :: r => (if Bool.eqb (conforms_kf default_value_table s) b then [] else [i]) ++ failing (S i) r end.")
+    lines.append("  match l with [] => [] | (s, b) :: r => (if Bool.eqb (verdict_kf s) b then [] else [i]) ++ failing (S i) r end.")
     lines.append("Fixpoint kfhits (i : nat) (l : list (schema * bool)) : list nat :=")
-    lines.append("  match l with [] => [] | (s, b) :: r => (if Bool.eqb (conforms_kf default_value_table s) (conforms default_value_table s) then [] else [i]) ++ kfhits (S i) r end.")
+    lines.append("  match l with [] => [] | (s, b) :: r => (if Bool.eqb (verdict_kf s) (verdict s) then [] else [i]) ++ kfhits (S i) r end.")
     lines.append("Eval vm_compute in (failing 0 cases).")
     lines.append("Eval vm_compute in (kfhits 0 cases).")
     return "\n".join(lines) + "\n"
